@@ -2,7 +2,8 @@
 (***************************************************************************)
 (* Stage (1) for the dispatch half of C04.  TLC enumerates                  *)
 (*   - user class hierarchies: chains of 1-3 classes below one of the      *)
-(*     built-in bases, every class decorated or not, setting its own       *)
+(*     built-in bases (Expression, the abstract AlgebraicLeaf and Leaf,    *)
+(*     Variable, Sum, CommonSubexpression, Call), every class decorated or not, setting its own       *)
 (*     handler name or not (a fresh name / the base's name / exactly the   *)
 (*     derived name), class names from the CamelCase pattern list and -    *)
 (*     for one-class chains - every identifier over a small alphabet;      *)
@@ -39,6 +40,8 @@ NameAt(pos) == CASE pos = 1 -> << "F","o","o","B","a","r" >>
 
 BaseHandler(base) ==
     CASE base = "Expression" -> ""
+      [] base = "AlgebraicLeaf" -> "map_algebraic_leaf"
+      [] base = "Leaf" -> "map_leaf"
       [] base = "Variable" -> "map_variable"
       [] base = "Sum" -> "map_sum"
       [] base = "CommonSubexpression" -> "map_common_subexpression"
